@@ -1568,6 +1568,50 @@ fn auth_family(mon: &Monitor, rng: &mut Rng, rt: &Runtime) {
     }
 }
 
+/// Two derivation engines with different master seeds derive the SAME path (paths come from a small
+/// pool, so engines on other threads of this process derive them too). They are different
+/// identities: their keys differ, a signature of one does not verify under the other's key, each
+/// verifies under its own, and a third engine restored from the second seed reproduces its key.
+fn derivation_twins(mon: &Monitor, rng: &mut Rng, rt: &Runtime) {
+    let depth = rng.urange(0, 3);
+    let comps: Vec<u32> = (0..depth).map(|_| *rng.pick(&[0u32, 1, 0x8000_0000])).collect();
+    let Ok(path) = DerivationPath::new(comps) else { return };
+    let (e1, e2) = (rng.bytes(32), rng.bytes(40));
+    let derive = |ent: &[u8]| -> Result<DerivedKey, String> {
+        let ms = MasterSeed::from_entropy(ent).map_err(|e| e.to_string())?;
+        HierarchicalKeyDerivation::new(ms).derive_key(&path).map_err(|e| e.to_string())
+    };
+    let (k1, k2, k3) = match (derive(&e1), derive(&e2), derive(&e2)) {
+        (Ok(a), Ok(b), Ok(c)) => (Id::Derived(a), Id::Derived(b), Id::Derived(c)),
+        _ => {
+            mon.count("twins.skipped.derivation-error", 1);
+            return;
+        }
+    };
+    let mlen = rng.urange(1, 200);
+    let msg = rng.bytes(mlen);
+    let ctx = |what: &str| json!({"what": what, "path": path.to_string(), "entropy_1": hex::encode(&e1), "entropy_2": hex::encode(&e2)});
+    mon.eval();
+    mon.case(("derivation-twins", depth));
+    mon.count("twins.pairs", 1);
+    if k1.pk() == k2.pk() {
+        mon.violation("derive/distinct-seeds-same-key/same-path", ctx("two master seeds were handed the same key pair for one path"));
+        return;
+    }
+    if k2.pk() != k3.pk() {
+        mon.violation("derive/same-seed-and-path-different-key", ctx("an engine restored from the same seed derived another key for the path"));
+    }
+    let (Ok(s1), Ok(s2)) = (k1.sign(&msg), k2.sign(&msg)) else { return };
+    mon.eval();
+    if !matches!(present("ml_dsa_verify", rt, rng, &k1.pk(), &msg, &s1), Verdict::Accept) || !matches!(present("ml_dsa_verify", rt, rng, &k2.pk(), &msg, &s2), Verdict::Accept) {
+        mon.violation("derive/own-signature-rejected", ctx("a derived identity's signature does not verify under its own key"));
+    }
+    mon.eval();
+    if matches!(present("ml_dsa_verify", rt, rng, &k2.pk(), &msg, &s1), Verdict::Accept) {
+        mon.violation("derive/foreign-signer-accepted/same-path-other-seed", ctx("a signature by (seed 1, path) verifies under the key of (seed 2, path)"));
+    }
+}
+
 fn main() {
     let mon = Monitor::new("C08", "exploration");
     mon.set_rule("case = one verify call at one entry point; non-trivial when it is made against a genuine signature or a 1-bit mutant of one (message / signature / key bit, or a genuine signature under another identity's key or over another message); distinct by (entry point, identity kind or object family, mutated part refined to its structural region)");
@@ -1614,6 +1658,9 @@ fn main() {
             update_family(&mon, &mut rng, &rt, dir.path());
             auth_family(&mon, &mut rng, &rt);
             auth_family(&mon, &mut rng, &rt);
+            for _ in 0..6 {
+                derivation_twins(&mon, &mut rng, &rt);
+            }
             mon.count("rounds", 1);
         }
     });
